@@ -20,7 +20,9 @@ PROPERTIES = {
                  "queue: an ordered message whose stream sequence number is serially ahead of the expected one is held back with "
                  "everything behind it (all 16-bit pairs, also across the wrap), an ordered stream whose head is not a first "
                  "fragment delivers nothing, a complete single-fragment message that is due is delivered first with exactly its "
-                 "stream id, protocol and payload; it terminates and raises nothing. Reduced: the general statement about every "
+                 "stream id, protocol and payload; it terminates and raises nothing; an incoming stream reset "
+                 "(_receive_reconfig_param, StreamResetOutgoingParam) drops the reassembly state of every listed stream and of "
+                 "no other, so a re-used stream id is expected from sequence number 0 again. Reduced: the general statement about every "
                  "yielded run (consecutive TSNs, B..E, concatenation), _mark_received, _receive_data_chunk, the send side and "
                  "the whole-history 'prefix of the sends' statement are not decided.",
         "note": "add_chunk assumes what its only caller establishes: no duplicate TSN in the queue (filtered by _mark_received) "
@@ -59,13 +61,17 @@ PROPERTIES = {
                  "number of the *last* popped ordered chunk of that stream (not the numerically largest: they wrap), covering "
                  "every such stream; InboundStream.prune_chunks removes exactly the maximal prefix of chunks at or before the "
                  "forwarded TSN (32-bit serial order) and nothing else; ForwardTsnChunk parsing decodes the stream list exactly "
-                 "and rejects bad lengths with ValueError. Reduced: _maybe_abandon (F-15), _receive_forward_tsn_chunk, expiry in "
+                 "and rejects bad lengths with ValueError; RTCSctpTransport._maybe_abandon answers yes for an already abandoned "
+                 "chunk and no for one that is not due without touching anything, the retransmission limit decides by itself, "
+                 "and a newly abandoned chunk marks (abandoned, not to be retransmitted) exactly the chunks of its message in "
+                 "the sent queue - back to the first fragment and forward to the last - and no chunk of a neighbouring message. "
+                 "Reduced: fragments of the message still in the outbound queue (F-15), _receive_forward_tsn_chunk, expiry in "
                  "_data_channel_flush, flight-size accounting and every schedule-level statement are not decided.",
         "note": "Only the listed functions are decided; nothing is claimed about other channels being undisturbed across a "
                 "whole exchange.",
         "design_ref": "DESIGN.md 4.6, 9",
         "trusted_base": COMMON,
-        "not_decided": ["_maybe_abandon covers unsent fragments (F-15)", "_receive_forward_tsn_chunk", "_data_channel_flush expiry",
+        "not_decided": ["_maybe_abandon does not reach unsent fragments in _outbound_queue (F-15, open, outside every contract)", "_receive_forward_tsn_chunk", "_data_channel_flush expiry",
                         "flight-size accounting in _receive_sack_chunk (F-14)", "delivery resumes after recovery (liveness)"],
     },
     "C07": {
